@@ -220,8 +220,36 @@ func (p *player) doWrite(s ScStep) {
 			fr = &frame.V2Frame{SequenceNumber: byte(s.Tag), SystemID: 77, ComponentID: 88, Message: m}
 		}
 		// a forwarded frame carries its own checksum: compute it through FixFrame-free means (C08 covers FixFrame)
-		if err := p.node.FixFrame(fr); err != nil && s.Bad == "" && p.sc.Conf.Dialect != "none" {
-			p.rec.Put(M{"e": "Note", "what": "FixFrame failed: " + err.Error()})
+		typed := s.Bad == "" && !s.Raw && s.Tag%2 == 1
+		if typed {
+			// the frame keeps its DECODED message (what a router forwards straight from an event); checksum and signature
+			// come from a copy that went through FixFrame
+			var cp frame.Frame
+			switch f := fr.(type) {
+			case *frame.V1Frame:
+				c := *f
+				cp = &c
+			case *frame.V2Frame:
+				c := *f
+				cp = &c
+			}
+			if err := p.node.FixFrame(cp); err != nil {
+				typed = false
+			} else {
+				switch f := fr.(type) {
+				case *frame.V1Frame:
+					f.Checksum = cp.(*frame.V1Frame).Checksum
+				case *frame.V2Frame:
+					c := cp.(*frame.V2Frame)
+					f.Checksum, f.IncompatibilityFlag, f.SignatureLinkID, f.SignatureTimestamp, f.Signature = c.Checksum,
+						c.IncompatibilityFlag, c.SignatureLinkID, c.SignatureTimestamp, c.Signature
+				}
+			}
+		}
+		if !typed {
+			if err := p.node.FixFrame(fr); err != nil && s.Bad == "" && p.sc.Conf.Dialect != "none" {
+				p.rec.Put(M{"e": "Note", "what": "FixFrame failed: " + err.Error()})
+			}
 		}
 	}
 	p.rec.Put(M{"e": "WInv", "g": s.G, "call": call, "kind": s.Kind, "target": tdesc, "tep": s.Ep, "tinst": s.Inst, "tag": s.Tag,
